@@ -10,6 +10,10 @@ import time
 
 from vlib import core
 from checks import alloc_common as A
+try:
+    from checks import galloc_part
+except ImportError:      # the add-on part is optional
+    galloc_part = None
 
 PID = "C04"
 
@@ -40,7 +44,7 @@ def run(tier):
     chk = core.Check(PID, tier, "model_checking")
     quick = tier == "quick"
     k = A.code_constants()
-    pool = concurrent.futures.ThreadPoolExecutor(max_workers=3)
+    pool = concurrent.futures.ThreadPoolExecutor(max_workers=4)
 
     def design():
         res = A.model_check(chk, "AllocAbs_MC04.cfg", "AllocAbs C04 design model", coverage=True, workers=4)
@@ -56,6 +60,10 @@ def run(tier):
 
     bin_dbg = A.build(release=False)
     bin_rel = A.build(release=True)
+    # add-on part (builder-threads): the REAL private #[global_allocator] GlobalDlMalloc in a no-libc
+    # probe (features executable + threaded + global-allocator), 1/2/4 threads, judged with this
+    # property's invariants of AllocAbs; runs concurrently with the drivers below
+    fut_ga = pool.submit(galloc_part.run_part, chk, tier) if galloc_part else None
     cfg = trace_cfg(chk, k)
 
     # ---- TLC-generated workloads: every allocation order of every multiset of <= W classes,
@@ -73,7 +81,10 @@ def run(tier):
         used = seqs
     plans = []
     for i, s in enumerate(used):
-        for j, order in enumerate(("fifo", "lifo", "inter")):
+        orders = ("fifo", "lifo", "inter")
+        if not quick and len(s) == W:
+            orders = (orders[i % 3],)      # the longest workloads: one free order each, rotating
+        for j, order in enumerate(orders):
             plans.append({"kind": "work", "blocks": [classes[c - 1] for c in s], "free": order, "reps": reps,
                           "base": reps // 2, "os": "bad"[(i + j) % 3], "walk": True, "src": "tlc-workload"})
     n_tlc = len(plans)
@@ -190,6 +201,8 @@ def run(tier):
     chk.evaluations = stats["repetitions"]
     chk.nontrivial = len(nontrivial)
 
+    if fut_ga is not None:
+        fut_ga.result()
     res, cov, probes = fut_design.result()
     pool.shutdown()
     silent = [a for a in A.ACTIONS + ["RepMark"] if cov.get(a, 0) == 0]
@@ -216,7 +229,7 @@ def run(tier):
         "real-OS runs (raw syscall wrappers against the real kernel): footprint = growth of the process' VmSize, which also contains whatever the recorder itself maps (its output buffer is pre-reserved); only SteadyState is judged there (60 repetitions, baseline 30)",
         "SteadyState is judged only where the OS policy is the same in every repetition (always below / above / disjoint); runs with a random placement per mapping are judged by Envelope, NoGratuitousMap, ReleaseOnce only",
         "never trimming alone does not violate the property as stated (held memory stays bounded by peak demand) and is not flagged",
-        "multi-threaded runs: 2-4 std threads share one Dlmalloc behind tiny_std::sync::Mutex (lock, one call, unlock; the recorder sits in the same critical section so the log order is the execution order) - the composition of the private GlobalDlMalloc wrapper, which itself is only compiled with feature global-allocator and cannot be enabled in a std-linked harness; thread interleavings are whatever the OS scheduler produces (not controlled), therefore SteadyState is not judged on these runs (the concurrent demand differs between repetitions), Envelope / NoGratuitousMap / ReleaseOnce are",
+        "multi-threaded runs: 2-4 std threads share one Dlmalloc behind tiny_std::sync::Mutex (lock, one call, unlock; the recorder sits in the same critical section so the log order is the execution order) - the composition of the private GlobalDlMalloc wrapper, which itself is only compiled with feature global-allocator and cannot be enabled in a std-linked harness (the real wrapper is exercised by the add-on part global_allocator_part in a no-libc probe); thread interleavings are whatever the OS scheduler produces (not controlled), therefore SteadyState is not judged on these runs (the concurrent demand differs between repetitions), Envelope / NoGratuitousMap / ReleaseOnce are",
     ]
     chk.extra.update({"design_model": {"states": res.distinct, "action_coverage": {a: cov.get(a, 0) for a in A.ACTIONS + ["RepMark"]},
                                        "probes": probes},
